@@ -805,6 +805,16 @@ impl Check {
 		for (k, v) in &self.extra {
 			coverage[k] = v.clone();
 		}
+		// C15/C20: `./check` runs the same binary built with release-like arithmetic first and hands
+		// the evidence of that run to this one
+		if let Ok(p) = std::env::var("VERIF_PROFILE") {
+			coverage["profile_of_code_under_test"] = json!(p);
+		} else if let Some(e) = std::env::var("VERIF_RELCHECK_EVIDENCE").ok().and_then(|f| std::fs::read(f).ok()).and_then(|b| serde_json::from_slice::<serde_json::Value>(&b).ok()) {
+			coverage["release_like_run"] = json!({
+				"what": "the same phases, run first with the code under test compiled without debug assertions and with wrapping overflow (cargo profile relcheck)",
+				"tier": e["tier"], "seed": e["seed"], "evaluations": e["coverage"]["evaluations"], "distinct_nontrivial": e["coverage"]["distinct_nontrivial"], "violations": e["violations"], "wall_s": e["wall_s"],
+			});
+		}
 		if let Some(v) = &self.violation {
 			coverage["violation"] = json!({"phase": v.phase, "what": v.what, "sig": v.sig, "replay": v.replay});
 		}
